@@ -152,7 +152,10 @@ def run(rep, tier, seed):
                             overshoot = overshoot or v > abs(m[0][0] - m[1][0]) / 4 + 1e-9
                         elif (m[2], m[3]) in (("t", "b"), ("b", "t")):
                             overshoot = overshoot or v > abs(m[0][1] - m[1][1]) / 4 + 1e-9
-                if apart and cs["form"] == "auto" and not overshoot:
+                # a U-shaped route (the same edge named at both ends) always has an outward way:
+                # out beyond both elements, whatever their arrangement
+                ushape = cs["form"] == "bothloc" and cs["sloc"] == cs["eloc"]
+                if ((apart and cs["form"] == "auto") or ushape) and not overshoot:
                     def outward(loc, p_edge, p_other):
                         dx, dy = p_other[0] - p_edge[0], p_other[1] - p_edge[1]
                         return {"r": dx >= -0.0015, "l": dx <= 0.0015, "b": dy >= -0.0015, "t": dy <= 0.0015}.get(loc, True)
